@@ -290,6 +290,10 @@ def fam_inject(out, tier, rnd):
     # ... and the refusing / accepting CONNACK and the acknowledgements with their remaining length on two bytes
     for p in (W.connack(5, 0), W.connack(0, 0), W.ack("PUBACK", 1), W.suback(1, [1, 2])):
         always.append(bytes([p[0], p[1] | 0x80, 0x00]) + p[2:])
+    # ... and acknowledgements cut after the first byte of their identifier (the byte that is left equals the identifier of a
+    # request that the prepared situations have pending, or of the inbound message they hold)
+    for first, lo in ((0x40, 1), (0x50, 1), (0x70, 1), (0x90, 1), (0xB0, 2), (0xB0, 1), (0x62, 9), (0x40, 2), (0x50, 2)):
+        always.append(bytes([first, 1, lo]))
     for prof, sit in combos:
         todo = [inj[(k * 7919 + j) % len(inj)] for j in range(per)] + always
         k += 1
@@ -924,6 +928,37 @@ def fam_ka2(out, tier, rnd):
 
 
 # ------------------------------------------------------------------------------------------------ everything pending at the end
+def fam_heldback(out, tier, rnd):
+    """messages held back behind a full window when a persistent connection is lost, released by the resumption of a new
+    protocol with a larger window: their first transmission (no DUP, original order, QoS 0 included)   (C10, C12, C18)"""
+    for prof in ("pub", "both"):
+        for ver in (3, 4):
+            for held in ((0,), (1,), (2,), (0, 1), (2, 0, 1), (0, 0)):
+                for win2 in (1, 3):
+                    w = out.world(prof)
+                    w.build(A); w.set(A, "onDisconnection", 1); w.set(A, "window", 1)
+                    w.connect(A, keepalive=0, cleanStart=False, version=ver); w.recv(A, W.connack(0, 0))
+                    w.publish(A, "t", "inflight", 1)
+                    for j, q in enumerate(held):
+                        w.publish(A, "h/%d" % j, "held%d" % j, q)
+                    w.lost(A, "lost"); drain(w, 2)
+                    w.build(A); w.set(A, "onDisconnection", 1); w.set(A, "window", win2)
+                    mark = len(w.lines)
+                    w.connect(A, keepalive=0, cleanStart=False, version=ver); w.recv(A, W.connack(0, 1))
+                    for _ in range(8):
+                        todo = []
+                        for t, q, i in written_ids(w, mark):
+                            if (t, q, i) not in todo:
+                                todo.append((t, q, i))
+                        mark = len(w.lines)
+                        if not todo or w.t[A].phase != "open":
+                            break
+                        for t, q, i in todo:
+                            w.recv(A, W.ack("PUBCOMP" if t == "PUBREL" else ("PUBACK" if q == 1 else "PUBREC"), i))
+                    w.lost(A, "done"); drain(w, 2)
+                    out.done(w)
+
+
 def fam_lossall(out, tier, rnd):
     """requests of every kind pending at once (QoS 1 in flight, QoS 2 in its PUBLISH and in its PUBREL phase, QoS 0/1/2 held
     back, SUBSCRIBE, UNSUBSCRIBE), optionally an inbound QoS 2 message half received, and the connection ending in each
@@ -1116,7 +1151,7 @@ def main():
     outdir, fam, tier, seed = sys.argv[1], sys.argv[2], sys.argv[3], int(sys.argv[4])
     rnd = random.Random(seed)
     out = Out(outdir)
-    {"handshake": fam_handshake, "inject": fam_inject, "args": fam_args, "react": fam_react, "refused": fam_refused, "refstate": fam_refstate, "ids": fam_ids, "retrygrid": fam_retrygrid, "inbound2": fam_inbound2, "resume": fam_resume, "deadconnect": fam_deadconnect, "pktstate": fam_pktstate, "lossall": fam_lossall, "ka2": fam_ka2}[fam](out, tier, rnd)
+    {"handshake": fam_handshake, "inject": fam_inject, "args": fam_args, "react": fam_react, "refused": fam_refused, "refstate": fam_refstate, "ids": fam_ids, "retrygrid": fam_retrygrid, "inbound2": fam_inbound2, "resume": fam_resume, "deadconnect": fam_deadconnect, "pktstate": fam_pktstate, "lossall": fam_lossall, "heldback": fam_heldback, "ka2": fam_ka2}[fam](out, tier, rnd)
     out.close()
 
 
